@@ -22,6 +22,7 @@ import (
 	"testing"
 	"time"
 
+	stackage "github.com/JesseCoretta/go-stackage"
 	"pgregory.net/rapid"
 )
 
@@ -239,12 +240,62 @@ func trackCurrent[C any](id string, c C) {
 	os.WriteFile(filepath.Join(out, fmt.Sprintf("current.%d.json", envInt("VERIF_SHARD", 0))), b, 0o644)
 }
 
+// lockWatch is the single-goroutine lock discipline monitor. Every property
+// function except the concurrent ones (C10, C11, which own the hook) runs on one
+// goroutine, so a request for a stack's lock while that lock is held can never be
+// served: the call under test would hang. The monitor turns that hang into a
+// panic at the point of the request (before sync.Mutex.Lock is entered), which the
+// property function reports like any other panic; if the property function
+// swallowed it, safeRun reports it itself.
+var lockWatch struct {
+	on      bool
+	held    map[uintptr]bool
+	tripped string
+}
+
+const selfDeadlockMsg = "self-deadlock: the lock of stack %#x is requested while it is still held (a call returned without releasing it, or a locked method re-entered a locking method)"
+
+func lockWatchHook(ev string, id uintptr) {
+	switch ev {
+	case "lock.want":
+		if lockWatch.held[id] {
+			lockWatch.tripped = fmt.Sprintf(selfDeadlockMsg, id)
+			panic(lockWatch.tripped)
+		}
+	case "lock.held":
+		lockWatch.held[id] = true
+	case "lock.released":
+		delete(lockWatch.held, id)
+	}
+}
+
+// InstallLockWatch (re-)installs the monitor; property functions that borrow
+// stackage.VerifHook for a section call it when they are done.
+func InstallLockWatch() {
+	if lockWatch.on {
+		stackage.VerifHook = lockWatchHook
+	} else {
+		stackage.VerifHook = nil
+	}
+}
+
 func safeRun[C any](run func(C) (Stats, error), c C) (st Stats, err error) {
 	defer func() {
 		if r := recover(); r != nil {
 			err = &Violation{Key: "harness/panic", Msg: fmt.Sprintf("panic escaped the property function: %v\n%s", r, debug.Stack())}
 		}
+		if lockWatch.on {
+			stackage.VerifHook = nil
+			if lockWatch.tripped != "" && err == nil {
+				err = &Violation{Key: "self-deadlock", Msg: lockWatch.tripped}
+			}
+		}
 	}()
+	if lockWatch.on {
+		lockWatch.held = map[uintptr]bool{}
+		lockWatch.tripped = ""
+		stackage.VerifHook = lockWatchHook
+	}
 	return run(c)
 }
 
@@ -366,7 +417,11 @@ func bitsEven(n int) bool {
 	return k%2 == 0
 }
 
+// ownsHook: the concurrent properties drive stackage.VerifHook themselves.
+func (r *defRunner[C]) armLockWatch() { lockWatch.on = r.d.ID != "C10" && r.d.ID != "C11" }
+
 func (r *defRunner[C]) runAll(t *testing.T) {
+	r.armLockWatch()
 	tier := currentTier()
 	shard := envInt("VERIF_SHARD", 0)
 	nshards := envInt("VERIF_NSHARDS", 1)
@@ -491,6 +546,7 @@ func (r *defRunner[C]) runAll(t *testing.T) {
 }
 
 func (r *defRunner[C]) replay(raw []byte) error {
+	r.armLockWatch()
 	var rf replayFile
 	if err := json.Unmarshal(raw, &rf); err != nil {
 		return fmt.Errorf("bad replay file: %v", err)
@@ -513,6 +569,7 @@ func (r *defRunner[C]) replay(raw []byte) error {
 // stream -> structured case). Known findings are excluded inside the target so
 // that a campaign does not end on a listed defect.
 func (r *defRunner[C]) fuzz(f *testing.F) {
+	r.armLockWatch()
 	tier := Tier{Name: "thorough", Thorough: true}
 	known := loadKnown(r.d.ID)
 	f.Add([]byte{})
